@@ -18,6 +18,7 @@ package main
 // (ruleLoaderCache; G-STATE, G-CACHEFIELDS, G-INVALIDATE stay in loaderrules.go).
 
 import (
+	"os"
 	"strings"
 	"fmt"
 	"go/constant"
@@ -300,6 +301,9 @@ func buildLoaderSSA(c *Ctx, rule string) *loaderSSA {
 				}
 			}
 		}
+	}
+	if os.Getenv("HLDEBUG_LOADER") != "" {
+		fmt.Fprintf(os.Stderr, "loader roles: A=%v L=%v cache=%v\n", ls.A, ls.L, ls.cache)
 	}
 	if len(ls.scc) == 0 || ls.A == nil {
 		c.undecided(rule, "include", "include recursion", token.NoPos,
@@ -602,7 +606,10 @@ func memberTest(ins ssa.Instruction) (ssa.Value, bool) {
 		if call, ok := ins.(*ssa.Call); ok {
 			if cal := call.Call.StaticCallee(); cal != nil && cal.Blocks != nil && inModule(cal) && len(cal.Blocks) == 1 &&
 				cal.Signature.Results().Len() == 1 && types.TypeString(cal.Signature.Results().At(0).Type(), nil) == "bool" {
-				if v, ok := helperOp(ins, memberTest); ok {
+				helperFieldTests = true
+				v, ok := helperOp(ins, memberTest)
+				helperFieldTests = false
+				if ok {
 					return v, true
 				}
 			}
@@ -665,12 +672,22 @@ func helperOp(ins ssa.Instruction, op func(ssa.Instruction) (ssa.Value, bool)) (
 					}
 				}
 			}
+			// ... or (tests only) on a container that is identified by the struct field it lives in (t.out.Files)
+			if k := setKey(v); k != nil && helperFieldTests {
+				if _, isField := k.(*types.Var); isField {
+					return v, true
+				}
+			}
 		}
 	}
 	return nil, false
 }
 
 var helperOff bool
+
+// helperFieldTests: helperOp also accepts an operation on a container held in a struct field (set while a
+// membership-test helper is summarised).
+var helperFieldTests bool
 
 func opNoHelper(ins ssa.Instruction, op func(ssa.Instruction) (ssa.Value, bool)) (ssa.Value, bool) {
 	old := helperOff
@@ -922,7 +939,7 @@ func ruleLoaderCycle(c *Ctx) {
 				for _, ins := range b.Instrs {
 					if ls.event("record", ins, ls.isRecord) {
 						nRecSites++
-						tested := condSliceHas(b, ls.isLookupIn(ls.L))
+						tested := condSliceHas(b, ls.isLookupIn(ls.L)) || ls.notInOnChain(c, b, ls.L, 0)
 						// marked before: a mark event of L dominates the record (or precedes it in the block)
 						marked := false
 						for _, b2 := range f.Blocks {
@@ -1210,7 +1227,7 @@ func ruleLoaderCacheSSA(c *Ctx) *loaderSSA {
 				}
 				nPut++
 				bad := ""
-				sl, unbound := backSlicePath(mu.Value, nil)
+				sl, unbound := backSlicePrecise(mu.Value)
 				for v := range sl {
 					if v == nil {
 						continue
@@ -1757,3 +1774,26 @@ func memberDesc(v ssa.Value) string {
 // rebase: container expressions are compared through their field identity (setOf), which does not depend on the
 // root; the expression itself is kept.
 func rebase(set ssa.Value, arg ssa.Value) ssa.Value { return set }
+
+// notInOnChain: a negative membership test in `set` is necessary for reaching block b - in its own function, or
+// at every call site of that function (two levels).
+func (ls *loaderSSA) notInOnChain(c *Ctx, b *ssa.BasicBlock, set any, depth int) bool {
+	for _, m := range blockMemberships(b) {
+		if !m.pos && ls.setOf(m.set) == set {
+			return true
+		}
+	}
+	if depth >= 2 {
+		return false
+	}
+	sites := (cgView{c}).callersOf(b.Parent())
+	if len(sites) == 0 {
+		return false
+	}
+	for _, site := range sites {
+		if !ls.notInOnChain(c, site.Block(), set, depth+1) {
+			return false
+		}
+	}
+	return true
+}
